@@ -325,7 +325,7 @@ def check_real(case):
 
 def parts(tier):
     return [
-        Part("synthetic", strategy=_traj(), check=check, n={"quick": 12000, "thorough": 300000}),
+        Part("synthetic", strategy=_traj(), check=check, n={"quick": 12000, "thorough": 900000}),
         Part("real", strategy=_real(), check=check_real, n={"quick": 160, "thorough": 3000}),
     ]
 
